@@ -250,8 +250,7 @@ Record same_regs (th th' : tstate) : Prop := {
   sr_best : r_best th' = r_best th }.
 
 Record same_study (g g' : gstate) : Prop := {
-  ss_tr : T g' = T g; ss_max : s_max (St g') = s_max (St g); ss_lat : s_latest (St g') = s_latest (St g); ss_best : s_best (St g') = s_best (St g);
-  ss_reg : registry g' = registry g }.
+  ss_tr : T g' = T g; ss_max : s_max (St g') = s_max (St g); ss_reg : registry g' = registry g }.
 
 Lemma same_regs_refl : forall th, same_regs th th. Proof. constructor; reflexivity. Qed.
 Lemma same_study_refl : forall g, same_study g g. Proof. constructor; reflexivity. Qed.
@@ -544,6 +543,585 @@ Proof.
     + erewrite countp_upd_same; eauto. erewrite sumz_same; eauto. rewrite Hgh. reflexivity.
   - eapply others_trial_mut; eauto. simpl. auto.
 Qed.
+(* ---- helpers: the invariant when only counters / ghost debts move ------------------------------------------------ *)
+Lemma GI_counter : forall g' th'' dc dp di,
+  T g' = T g -> s_max (St g') = s_max (St g) -> s_full (St g') = s_full (St g) -> registry g' = registry g -> nstudies g' = nstudies g ->
+  s_comp (St g') = (s_comp (St g) + dc)%Z -> s_pend (St g') = (s_pend (St g) + dp)%Z -> s_inf (St g') = (s_inf (St g) + di)%Z ->
+  g_reg (gh th'') = g_reg (gh th) -> g_own (gh th'') = g_own (gh th) -> g_fb (gh th'') = g_fb (gh th) ->
+  g_cc (gh th'') = (g_cc (gh th) - dc)%Z -> (g_ip (gh th'') - g_dp (gh th'') = g_ip (gh th) - g_dp (gh th) - dp)%Z -> g_infd (gh th'') = (g_infd (gh th) - di)%Z ->
+  (forall k, holds_k th k -> holds_k th'' k) ->
+  GI g' (set_th ts t th'').
+Proof.
+  intros g' th'' dc dp di HTT Hmax Hfull Hreg Hnst Hc Hp Hi Hgr Hgo Hgf Hgc Hgp Hgi Hh. destruct HG.
+  constructor; rewrite ?HTT, ?Hmax, ?Hfull, ?Hreg, ?Hnst; auto.
+  - rewrite gi_nst0. f_equal. symmetry. eapply cntb_same; eauto.
+  - intros t0 th0 Hn Hr. destruct (nth_set_cases _ _ _ Hn) as [[? ?]|[? ?]]; subst.
+    + apply Hh. eapply gi_reglock0; eauto; congruence.
+    + eapply gi_reglock0; eauto.
+  - intros t0 th0 j Hn Ho. destruct (nth_set_cases _ _ _ Hn) as [[? ?]|[? ?]]; subst.
+    + eapply gi_own0; eauto; congruence.
+    + eapply gi_own0; eauto.
+  - intros j y Hj. assert (E : fbdebt (set_th ts t th'') j = fbdebt ts j).
+    { unfold fbdebt. eapply cntb_same; eauto. simpl. rewrite Hgf, Hgo. auto. }
+    rewrite E. auto.
+  - rewrite Hc. erewrite sumz_set_th; eauto. rewrite Hgc. rewrite <- gi_comp0. ring.
+  - rewrite Hp. erewrite !sumz_set_th; eauto. rewrite <- gi_pendc0.
+    replace (g_ip (gh th'')) with (g_ip (gh th) - g_dp (gh th) - dp + g_dp (gh th''))%Z by lia. ring.
+  - rewrite Hi. erewrite sumz_set_th; eauto. rewrite Hgi. rewrite <- gi_infc0. ring.
+Qed.
+
+Lemma others_same_study : forall g', same_study g g' -> others_stable g g' ts t.
+Proof. red; intros. eapply sat_frame; eauto. apply same_regs_refl. Qed.
+
+Ltac stmt_start Hre g' th' Hsem Hst0 :=
+  intros Hre g' th' Hsem; pose proof (s_study _ _ _ _ Hs) as Hst0; simpl in Hre;
+  unfold sem, muts, regs, study_of in Hsem; rewrite Hst0 in Hsem.
+
+Ltac counter_gi Hsr xc xp xi :=
+  eapply (GI_counter _ _ xc xp xi);
+  try reflexivity;
+  try (unfold St; simpl; ring);
+  try (rewrite ?(sr_gh _ _ Hsr); simpl; ring);
+  try (rewrite ?(sr_gh _ _ Hsr); reflexivity);
+  try (intros; eapply same_regs_holds; eauto; fail).
+
+Lemma stmt_EIncComp : req_eff EIncComp a = true ->
+  forall g' th', sem c t EIncComp g th = (g', th') -> stmt_goal g ts t g' th' (post_eff EIncComp a).
+Proof.
+  stmt_start Hre g' th' Hsem Hst0. inv Hsem. simpl. split; [|split].
+  - destruct Hs. constructor; simpl; auto. rewrite s_dcc0, Hre. reflexivity.
+  - intros th'' Hsr. counter_gi Hsr 1%Z 0%Z 0%Z.
+  - apply others_same_study. constructor; reflexivity.
+Qed.
+
+Lemma stmt_EDecPend : req_eff EDecPend a = true ->
+  forall g' th', sem c t EDecPend g th = (g', th') -> stmt_goal g ts t g' th' (post_eff EDecPend a).
+Proof.
+  stmt_start Hre g' th' Hsem Hst0. inv Hsem. simpl. split; [|split].
+  - destruct Hs. constructor; simpl; auto. rewrite s_ddp0, Hre. reflexivity.
+  - intros th'' Hsr. counter_gi Hsr 0%Z (-1)%Z 0%Z.
+  - apply others_same_study. constructor; reflexivity.
+Qed.
+
+Lemma stmt_EIncInf : req_eff EIncInf a = true ->
+  forall g' th', sem c t EIncInf g th = (g', th') -> stmt_goal g ts t g' th' (post_eff EIncInf a).
+Proof.
+  stmt_start Hre g' th' Hsem Hst0. inv Hsem. simpl. split; [|split].
+  - destruct Hs. constructor; simpl; auto. rewrite s_dinf0, Hre. reflexivity.
+  - intros th'' Hsr. counter_gi Hsr 0%Z 0%Z 1%Z.
+  - apply others_same_study. constructor; reflexivity.
+Qed.
+
+Lemma stmt_EIncPend : req_eff EIncPend a = true ->
+  forall g' th', sem c t EIncPend g th = (g', th') -> stmt_goal g ts t g' th' (post_eff EIncPend a).
+Proof.
+  stmt_start Hre g' th' Hsem Hst0. inv Hsem. simpl. split; [|split].
+  - destruct Hs. constructor; simpl; auto. rewrite s_dip0, Hre. reflexivity.
+  - intros th'' Hsr. counter_gi Hsr 0%Z 1%Z 0%Z.
+  - apply others_same_study. constructor; reflexivity.
+Qed.
+
+
+Lemma stmt_ELookup : forall g' th', sem c t ELookup g th = (g', th') -> stmt_goal g ts t g' th' (post_eff ELookup a).
+Proof.
+  intros g' th' Hsem. pose proof (s_study _ _ _ _ Hs) as Hst0. unfold sem, muts, regs in Hsem. injection Hsem as Eg Eth; subst g' th'. simpl.
+  assert (Hsr0 : same_regs th (match registry g with Some s' => th_study s' th | None => th end)).
+  { pose proof (gi_reg _ _ HG). destruct (registry g); subst; constructor; simpl; auto. }
+  eapply stmt_boring; eauto; constructor; reflexivity.
+Qed.
+
+Lemma stmt_EGetLatest : req_eff EGetLatest a = true ->
+  forall g' th', sem c t EGetLatest g th = (g', th') -> stmt_goal g ts t g' th' (post_eff EGetLatest a).
+Proof.
+  stmt_start Hre g' th' Hsem Hst0. injection Hsem as Eg Eth; subst g' th'. simpl. apply negb_true_iff in Hre. split; [|split].
+  - destruct Hs. rewrite Hre in s_dlat0. constructor; simpl; auto. rewrite Hre. auto.
+  - intros th'' Hsr. counter_gi Hsr 0%Z 0%Z 0%Z.
+  - apply others_same_study. constructor; reflexivity.
+Qed.
+
+Lemma stmt_EReadId : forall g' th', sem c t EReadId g th = (g', th') -> stmt_goal g ts t g' th' (post_eff EReadId a).
+Proof.
+  intros g' th' Hsem. pose proof (s_study _ _ _ _ Hs) as Hst0. unfold sem, muts, regs, study_of in Hsem. rewrite Hst0 in Hsem. injection Hsem as Eg Eth; subst g' th'. simpl.
+  split; [|split].
+  - destruct Hs. constructor; simpl; auto.
+  - intros th'' Hsr. counter_gi Hsr 0%Z 0%Z 0%Z.
+  - apply others_same_study. constructor; reflexivity.
+Qed.
+
+Lemma stmt_ESetCur : forall g' th', sem c t ESetCur g th = (g', th') -> stmt_goal g ts t g' th' (post_eff ESetCur a).
+Proof.
+  intros g' th' Hsem. unfold sem, muts, regs in Hsem. injection Hsem as Eg Eth; subst g' th'. simpl.
+  split; [|split].
+  - destruct Hs. constructor; simpl; auto; try discriminate.
+  - intros th'' Hsr. counter_gi Hsr 0%Z 0%Z 0%Z.
+  - apply others_same_study. constructor; reflexivity.
+Qed.
+
+Lemma stmt_EReadBest : forall g' th', sem c t EReadBest g th = (g', th') -> stmt_goal g ts t g' th' (post_eff EReadBest a).
+Proof.
+  intros g' th' Hsem. unfold sem, muts, regs in Hsem. injection Hsem as Eg Eth; subst g' th'. simpl.
+  split; [|split].
+  - destruct Hs. constructor; simpl; auto.
+  - intros th'' Hsr. counter_gi Hsr 0%Z 0%Z 0%Z.
+  - apply others_same_study. constructor; reflexivity.
+Qed.
+
+Lemma stmt_EComputeReward : forall g' th', sem c t EComputeReward g th = (g', th') -> stmt_goal g ts t g' th' (post_eff EComputeReward a).
+Proof.
+  intros g' th' Hsem. pose proof (s_study _ _ _ _ Hs) as Hst0. unfold sem, muts, regs, study_of in Hsem. rewrite Hst0 in Hsem. injection Hsem as Eg Eth; subst g' th'. simpl.
+  split; [|split].
+  - pose proof Hs as Hs'. destruct Hs. constructor; simpl; auto.
+    intros Hf. bool_hyps.
+    match goal with H : inf_is _ _ = true |- _ => apply inf_is_true in H; destruct (s_kinf0 _ H) as [i [x [A [B [C [D [E F]]]]]]] end.
+    destruct s_final0 as [i2 [x2 [A2 [B2 [C2 [D2 [E2 F2]]]]]]]; auto.
+    rewrite A in A2. inv A2. unfold T in C, C2. rewrite C in C2. inv C2.
+    rewrite A. simpl. unfold T in C. rewrite C. rewrite D, F. simpl. auto.
+  - intros th'' Hsr. counter_gi Hsr 0%Z 0%Z 0%Z.
+  - apply others_same_study. constructor; reflexivity.
+Qed.
+
+Lemma stmt_ESetLatest : req_eff ESetLatest a = true ->
+  forall g' th', sem c t ESetLatest g th = (g', th') -> stmt_goal g ts t g' th' (post_eff ESetLatest a).
+Proof.
+  stmt_start Hre g' th' Hsem Hst0. injection Hsem as Eg Eth; subst g' th'. simpl.
+  destruct (r_trial th) eqn:Etr; simpl.
+  - split; [|split].
+    + destruct Hs. constructor; simpl; auto.
+    + intros th'' Hsr. counter_gi Hsr 0%Z 0%Z 0%Z.
+    + apply others_same_study. constructor; reflexivity.
+  - split; [|split].
+    + destruct Hs. constructor; simpl; auto.
+    + intros th'' Hsr. counter_gi Hsr 0%Z 0%Z 0%Z.
+    + apply others_same_study. constructor; reflexivity.
+Qed.
+
+Lemma stmt_ESetBest : req_eff ESetBest a = true ->
+  forall g' th', sem c t ESetBest g th = (g', th') -> stmt_goal g ts t g' th' (post_eff ESetBest a).
+Proof.
+  stmt_start Hre g' th' Hsem Hst0. injection Hsem as Eg Eth; subst g' th'. simpl. split; [|split].
+  - destruct Hs. constructor; simpl; auto.
+  - intros th'' Hsr. counter_gi Hsr 0%Z 0%Z 0%Z.
+  - apply others_same_study. constructor; reflexivity.
+Qed.
+
+
+(* a mutation of a trial that leaves its status, owner, infeasibility and final measurement alone keeps every thread's facts *)
+Lemma sat_trial_pres : forall t' th2 a2 i k, (forall y, t_done (apply_tmut k y) = t_done y /\ t_owner (apply_tmut k y) = t_owner y /\
+                                                     t_inf (apply_tmut k y) = t_inf y /\ t_final (apply_tmut k y) = t_final y /\
+                                                     (t_meas y <> [] -> t_meas (apply_tmut k y) <> [])) ->
+  sat g t' th2 a2 -> sat (upd_study 0 (upd_trial i (apply_tmut k)) g) t' th2 a2.
+Proof.
+  intros t' th2 a2 i k Hk Hs2. destruct Hs2. constructor; auto.
+  - intros Hf. destruct (s_idfresh0 Hf). split; auto. rewrite T_upd_trial, length_upd_nth. auto.
+  - intros Hf. destruct (s_room0 Hf). split; auto. rewrite T_upd_trial, length_upd_nth. auto.
+  - intros Hf. destruct (s_curpend0 Hf) as [Hh [j [y [A [B C]]]]]. split; auto.
+    exists j. eexists. split; eauto. split. rewrite T_upd_trial. apply nth_upd_transfer; eauto.
+    destruct (Hk y) as [K1 _]. destruct (Nat.eqb i j); congruence.
+  - intros Hf. destruct (s_own0 Hf) as [j [y [A [B [C [D E]]]]]].
+    exists j. eexists. split; eauto. split; eauto. split. rewrite T_upd_trial. apply nth_upd_transfer; eauto.
+    destruct (Hk y) as [K1 [K2 _]]. destruct (Nat.eqb i j); split; congruence.
+  - intros v Hf. destruct (s_kinf0 v Hf) as [j [y [A [B [C [D [E F]]]]]]].
+    exists j. eexists. split; eauto. split; eauto. split. rewrite T_upd_trial. apply nth_upd_transfer; eauto.
+    destruct (Hk y) as [K1 [K2 [K3 _]]]. destruct (Nat.eqb i j); repeat split; congruence.
+  - intros Hf. destruct (s_final0 Hf) as [j [y [A [B [C [D [E F]]]]]]].
+    exists j. eexists. split; eauto. split; eauto. split. rewrite T_upd_trial. apply nth_upd_transfer; eauto.
+    destruct (Hk y) as [K1 [K2 [K3 [K4 _]]]]. destruct (Nat.eqb i j); repeat split; congruence.
+  - intros Hf. destruct (s_hasmeas0 Hf) as [j [y [A [B C]]]].
+    exists j. eexists. split; eauto. split. rewrite T_upd_trial. apply nth_upd_transfer; eauto.
+    destruct (Hk y) as [_ [_ [_ [_ K5]]]]. destruct (Nat.eqb i j); auto.
+Qed.
+
+Lemma tmeas_pres : forall z y, t_done (apply_tmut (TMeas z) y) = t_done y /\ t_owner (apply_tmut (TMeas z) y) = t_owner y /\
+  t_inf (apply_tmut (TMeas z) y) = t_inf y /\ t_final (apply_tmut (TMeas z) y) = t_final y /\ (t_meas y <> [] -> t_meas (apply_tmut (TMeas z) y) <> []).
+Proof. intros. simpl. repeat split; auto. intros. destruct (t_meas y); simpl; congruence. Qed.
+
+Lemma tfed_pres : forall y, t_done (apply_tmut TFed y) = t_done y /\ t_owner (apply_tmut TFed y) = t_owner y /\
+  t_inf (apply_tmut TFed y) = t_inf y /\ t_final (apply_tmut TFed y) = t_final y /\ (t_meas y <> [] -> t_meas (apply_tmut TFed y) <> []).
+Proof. intros. simpl. repeat split; auto. Qed.
+
+(* the study invariant under a mutation of a trial that keeps status, infeasibility, owner, fed-count and id *)
+Lemma GI_trial_pres : forall i k th'', (forall y, t_done (apply_tmut k y) = t_done y /\ t_owner (apply_tmut k y) = t_owner y /\
+                                                  t_inf (apply_tmut k y) = t_inf y /\ t_fed (apply_tmut k y) = t_fed y) ->
+  same_regs th th'' -> GI (upd_study 0 (upd_trial i (apply_tmut k)) g) (set_th ts t th'').
+Proof.
+  intros i k th'' Hk Hsr. destruct HG. destruct (shape_trial i (apply_tmut k)).
+  assert (Hgh : gh th'' = gh th) by apply (sr_gh _ _ Hsr).
+  constructor; rewrite ?sh_T0, ?sh_max0, ?sh_full0, ?sh_comp0, ?sh_pend0, ?sh_inf0, ?sh_reg0, ?sh_nst0, ?length_upd_nth; auto.
+  - rewrite gi_nst0. f_equal. symmetry. eapply cntb_same; eauto. rewrite Hgh. reflexivity.
+  - intros t0 th0 Hn Hr. destruct (nth_set_cases _ _ _ Hn) as [[? ?]|[? ?]]; subst.
+    + eapply same_regs_holds; eauto. eapply gi_reglock0; eauto. congruence.
+    + eapply gi_reglock0; eauto.
+  - rewrite map_id_upd by (intros; apply tmut_id). auto.
+  - intros j y Hj Hd. rewrite nth_error_upd_nth in Hj. destruct (Nat.eqb i j) eqn:E.
+    + destruct (nth_error (T g) j) as [y0|] eqn:E2; simpl in Hj; inv Hj. destruct (Hk y0) as [K1 [K2 [K3 K4]]].
+      rewrite K1 in Hd. rewrite K2, K3, K4. eapply gi_pend0; eauto.
+    + eapply gi_pend0; eauto.
+  - intros t0 th0 j Hn Ho.
+    assert (Hold : exists y, nth_error (T g) j = Some y /\ t_done y = true /\ t_owner y = Some t0).
+    { destruct (nth_set_cases _ _ _ Hn) as [[? ?]|[? ?]]; subst; eapply gi_own0; eauto; congruence. }
+    destruct Hold as [y [A [B C]]]. eexists. split. apply nth_upd_transfer; eauto.
+    destruct (Hk y) as [K1 [K2 _]]. destruct (Nat.eqb i j); split; congruence.
+  - intros j y Hj. rewrite nth_error_upd_nth in Hj.
+    assert (E : fbdebt (set_th ts t th'') j = fbdebt ts j) by (eapply fbdebt_same; eauto). rewrite E.
+    destruct (Nat.eqb i j) eqn:E2.
+    + destruct (nth_error (T g) j) as [y0|] eqn:E3; simpl in Hj; inv Hj. destruct (Hk y0) as [K1 [K2 [K3 K4]]].
+      rewrite K1, K3, K4. eapply gi_fed0; eauto.
+    + eapply gi_fed0; eauto.
+  - erewrite countp_upd_same. erewrite sumz_same; eauto. rewrite Hgh; auto. intros. apply Hk.
+  - erewrite countp_upd_same. erewrite !sumz_same; eauto; rewrite Hgh; auto. intros. destruct (Hk x) as [K1 _]. rewrite K1. auto.
+  - erewrite countp_upd_same. erewrite sumz_same; eauto. rewrite Hgh; auto. intros. apply Hk.
+Qed.
+
+Lemma stmt_EAddMeas : forall g' th', sem c t EAddMeas g th = (g', th') -> stmt_goal g ts t g' th' (post_eff EAddMeas a).
+Proof.
+  intros g' th' Hsem. pose proof (s_study _ _ _ _ Hs) as Hst0. unfold sem, muts, regs in Hsem. rewrite Hst0 in Hsem.
+  injection Hsem as Eg Eth; subst g' th'. simpl.
+  destruct (r_cur th) as [i|] eqn:Ecur; simpl.
+  - split; [|split].
+    + apply sat_trial_pres; auto. apply tmeas_pres.
+    + intros th'' Hsr. apply GI_trial_pres; auto.
+    + red; intros. apply sat_trial_pres; auto. apply tmeas_pres.
+  - eapply stmt_boring; eauto; constructor; reflexivity.
+Qed.
+
+
+Lemma sat_trial_final : forall t' th2 a2 i o, o <> None ->
+  sat g t' th2 a2 -> sat (upd_study 0 (upd_trial i (apply_tmut (TFinal o))) g) t' th2 a2.
+Proof.
+  intros t' th2 a2 i o Ho Hs2. destruct Hs2. constructor; auto.
+  - intros Hf. destruct (s_idfresh0 Hf). split; auto. rewrite T_upd_trial, length_upd_nth. auto.
+  - intros Hf. destruct (s_room0 Hf). split; auto. rewrite T_upd_trial, length_upd_nth. auto.
+  - intros Hf. destruct (s_curpend0 Hf) as [Hh [j [y [A [B C]]]]]. split; auto.
+    exists j. eexists. split; eauto. split. rewrite T_upd_trial. apply nth_upd_transfer; eauto. destruct (Nat.eqb i j); auto.
+  - intros Hf. destruct (s_own0 Hf) as [j [y [A [B [C [D E]]]]]].
+    exists j. eexists. split; eauto. split; eauto. split. rewrite T_upd_trial. apply nth_upd_transfer; eauto. destruct (Nat.eqb i j); auto.
+  - intros v Hf. destruct (s_kinf0 v Hf) as [j [y [A [B [C [D [E F]]]]]]].
+    exists j. eexists. split; eauto. split; eauto. split. rewrite T_upd_trial. apply nth_upd_transfer; eauto. destruct (Nat.eqb i j); auto.
+  - intros Hf. destruct (s_final0 Hf) as [j [y [A [B [C [D [E F]]]]]]].
+    exists j. eexists. split; eauto. split; eauto. split. rewrite T_upd_trial. apply nth_upd_transfer; eauto. destruct (Nat.eqb i j); auto.
+  - intros Hf. destruct (s_hasmeas0 Hf) as [j [y [A [B C]]]].
+    exists j. eexists. split; eauto. split. rewrite T_upd_trial. apply nth_upd_transfer; eauto. destruct (Nat.eqb i j); auto.
+Qed.
+
+Lemma sat_add_final : forall g1 i y, sat g1 t th a -> r_cur th = Some i -> g_own (gh th) = Some i -> nth_error (T g1) i = Some y ->
+  t_done y = true -> t_owner y = Some t -> t_final y <> None ->
+  sat g1 t th (set_cur_facts (f_hasmeas a) (f_own a) (f_inf a) true a).
+Proof.
+  intros g1 i y Hs1 A B C D E F. destruct Hs1. constructor; simpl; auto.
+  intros _. exists i, y. repeat split; auto.
+Qed.
+
+Lemma stmt_final_common : forall o i x, o <> None -> r_cur th = Some i -> g_own (gh th) = Some i -> nth_error (T g) i = Some x ->
+  t_done x = true -> t_owner x = Some t ->
+  stmt_goal g ts t (upd_study 0 (upd_trial i (apply_tmut (TFinal o))) g) th (set_cur_facts (f_hasmeas a) (f_own a) (f_inf a) true a).
+Proof.
+  intros o i x Ho Hcur Hown Hx Hd Hw. split; [|split].
+  - eapply sat_add_final with (i := i) (y := apply_tmut (TFinal o) x); eauto.
+    + apply sat_trial_final; auto.
+    + rewrite T_upd_trial. erewrite nth_upd_transfer; eauto. rewrite Nat.eqb_refl. eauto.
+  - intros th'' Hsr. apply GI_trial_pres; auto.
+  - eapply others_trial_mut; eauto. simpl. auto.
+Qed.
+
+Lemma stmt_ESetFinalLast : req_eff ESetFinalLast a = true ->
+  forall g' th', sem c t ESetFinalLast g th = (g', th') -> stmt_goal g ts t g' th' (post_eff ESetFinalLast a).
+Proof.
+  stmt_start Hre g' th' Hsem Hst0. bool_hyps.
+  destruct (s_own _ _ _ _ Hs) as [i [x [A [B [C [D E]]]]]]; auto.
+  destruct (s_hasmeas _ _ _ _ Hs) as [i2 [x2 [A2 [C2 M2]]]]; auto. rewrite A in A2. inv A2. rewrite C in C2. inv C2.
+  rewrite A in Hsem. unfold otrial in Hsem. fold (T g) in Hsem. rewrite C in Hsem.
+  injection Hsem as Eg Eth; subst g' th'. simpl.
+  eapply stmt_final_common; eauto. apply last_opt_some; auto.
+Qed.
+
+Lemma stmt_ESetFinalZero : req_eff ESetFinalZero a = true ->
+  forall g' th', sem c t ESetFinalZero g th = (g', th') -> stmt_goal g ts t g' th' (post_eff ESetFinalZero a).
+Proof.
+  stmt_start Hre g' th' Hsem Hst0. bool_hyps.
+  destruct (s_own _ _ _ _ Hs) as [i [x [A [B [C [D E]]]]]]; auto.
+  rewrite A in Hsem. injection Hsem as Eg Eth; subst g' th'. simpl.
+  eapply stmt_final_common; eauto. discriminate.
+Qed.
+
+
+Lemma stmt_ESetInf : req_eff ESetInf a = true ->
+  forall g' th', sem c t ESetInf g th = (g', th') -> stmt_goal g ts t g' th' (post_eff ESetInf a).
+Proof.
+  stmt_start Hre g' th' Hsem Hst0. bool_hyps.
+  assert (Hfb : d_fb a = true) by assumption. assert (Hdi : d_inf a = false) by assumption.
+  match goal with H : inf_is _ _ = true |- _ => apply inf_is_true in H; destruct (s_kinf _ _ _ _ Hs _ H) as [i [x [A [B [C [D [E F]]]]]]] end.
+  rewrite A in Hsem. unfold otrial in Hsem. fold (T g) in Hsem. rewrite C, F in Hsem.
+  injection Hsem as Eg Eth; subst g' th'. simpl.
+  assert (HTi : nth_error (T (upd_study 0 (upd_trial i (apply_tmut TInf)) g)) i = Some (apply_tmut TInf x)).
+  { rewrite T_upd_trial. erewrite nth_upd_transfer; eauto. rewrite Nat.eqb_refl. auto. }
+  split; [|split].
+  - destruct Hs. constructor; simpl; auto; try discriminate.
+    + intros Hf. destruct (s_idfresh0 Hf). split; auto. rewrite T_upd_trial, length_upd_nth. auto.
+    + intros Hf. destruct (s_room0 Hf). split; auto. rewrite T_upd_trial, length_upd_nth. auto.
+    + rewrite s_dinf0, Hdi. reflexivity.
+    + intros Hf. destruct (s_curpend0 Hf) as [Hh [j [y [A1 [B1 C1]]]]]. split; auto.
+      exists j. eexists. split; eauto. split. rewrite T_upd_trial. apply nth_upd_transfer; eauto. destruct (Nat.eqb i j); auto.
+    + intros Hf. exists i. eexists. repeat split; eauto.
+    + intros v Hv. inv Hv. exists i. eexists. repeat split; eauto.
+    + intros Hf. destruct (s_final0 Hf) as [j [y [A1 [B1 [C1 [D1 [E1 F1]]]]]]].
+      exists j. eexists. split; eauto. split; eauto. split. rewrite T_upd_trial. apply nth_upd_transfer; eauto. destruct (Nat.eqb i j); auto.
+    + intros Hf. destruct (s_hasmeas0 Hf) as [j [y [A1 [B1 C1]]]].
+      exists j. eexists. split; eauto. split. rewrite T_upd_trial. apply nth_upd_transfer; eauto. destruct (Nat.eqb i j); auto.
+  - intros th'' Hsr. destruct HG.
+    assert (Hgh : gh th'' = gh_inf (gh th)) by (rewrite (sr_gh _ _ Hsr); reflexivity).
+    destruct (shape_trial i (apply_tmut TInf)).
+    constructor; rewrite ?sh_T0, ?sh_max0, ?sh_full0, ?sh_comp0, ?sh_pend0, ?sh_inf0, ?sh_reg0, ?sh_nst0, ?length_upd_nth; auto.
+    + rewrite gi_nst0. f_equal. symmetry. eapply cntb_same; eauto. rewrite Hgh. reflexivity.
+    + intros t0 th0 Hn Hr. destruct (nth_set_cases _ _ _ Hn) as [[? ?]|[? ?]]; subst.
+      * eapply same_regs_holds; eauto. unfold holds_k. simpl. eapply gi_reglock0; eauto. rewrite Hgh in Hr. auto.
+      * eapply gi_reglock0; eauto.
+    + rewrite map_id_upd by (intros; apply tmut_id). auto.
+    + intros j y Hj Hd. rewrite nth_error_upd_nth in Hj. destruct (Nat.eqb i j) eqn:E2.
+      * apply Nat.eqb_eq in E2. subst. rewrite C in Hj. inv Hj. simpl in Hd. congruence.
+      * eapply gi_pend0; eauto.
+    + intros t0 th0 j Hn Ho.
+      assert (Hold : exists y, nth_error (T g) j = Some y /\ t_done y = true /\ t_owner y = Some t0).
+      { destruct (nth_set_cases _ _ _ Hn) as [[? ?]|[? ?]]; subst; eapply gi_own0; eauto. rewrite Hgh in Ho. auto. }
+      destruct Hold as [y [A1 [B1 C1]]]. eexists. split. apply nth_upd_transfer; eauto. destruct (Nat.eqb i j); auto.
+    + intros j y Hj. rewrite nth_error_upd_nth in Hj.
+      pose proof (fbdebt_set th'' j) as Hfd. rewrite Hgh in Hfd. simpl in Hfd. rewrite (s_dfb _ _ _ _ Hs), Hfb, B in Hfd. simpl in Hfd.
+      destruct (Nat.eqb i j) eqn:E2.
+      * apply Nat.eqb_eq in E2. subst. rewrite C in Hj. inv Hj. simpl. rewrite D. simpl.
+        pose proof (gi_fed0 _ _ C) as Hold. rewrite D, F in Hold. simpl in Hold. unfold b2z in Hfd. lia.
+      * unfold b2z in Hfd. pose proof (gi_fed0 _ _ Hj). lia.
+    + erewrite countp_upd_same; eauto. erewrite sumz_same; eauto. rewrite Hgh. reflexivity.
+    + erewrite countp_upd_same; eauto. erewrite !sumz_same; eauto; rewrite Hgh; reflexivity.
+    + erewrite countp_upd_flip; eauto. erewrite sumz_set_th; eauto. rewrite Hgh. simpl. rewrite F. unfold b2z. rewrite <- gi_infc0. simpl. ring.
+  - eapply others_trial_mut; eauto. simpl. auto.
+Qed.
+
+Lemma GI_same : forall g1 g2 ts1, same_gi g1 g2 -> GI g1 ts1 -> GI g2 ts1.
+Proof.
+  intros g1 g2 ts1 [] []. constructor; unfold St in *; rewrite ?sg_tr0, ?sg_max0, ?sg_full0, ?sg_comp0, ?sg_pend0, ?sg_inf0, ?sg_reg0, ?sg_nst0; auto.
+Qed.
+
+Lemma stmt_EIncNF : req_eff EIncNF a = true ->
+  forall g' th', sem c t EIncNF g th = (g', th') -> stmt_goal g ts t g' th' (post_eff EIncNF a).
+Proof.
+  stmt_start Hre g' th' Hsem Hst0. bool_hyps.
+  assert (Hfb : d_fb a = true) by assumption.
+  match goal with H : inf_is _ _ = true |- _ => apply inf_is_true in H; destruct (s_kinf _ _ _ _ Hs _ H) as [i [x [A [B [C [D [E F]]]]]]] end.
+  rewrite A in Hsem. unfold otrial in Hsem. fold (T g) in Hsem. rewrite C in Hsem.
+  injection Hsem as Eg Eth; subst g' th'. simpl.
+  set (g1 := upd_study 0 (upd_trial i (apply_tmut TFed)) g).
+  set (al := al_base (a_spec (alg g)) (a_np (alg g)) (S (a_nf (alg g))) (a_fed (alg g) ++ [(0, t_id x)]) (alg g)).
+  assert (Hss : same_study g1 (set_alg g1 al)) by (constructor; reflexivity).
+  assert (Hsg : same_gi g1 (set_alg g1 al)) by (constructor; reflexivity).
+  split; [|split].
+  - assert (Hs1 : sat g1 t th a) by (apply sat_trial_pres; auto; apply tfed_pres).
+    destruct (sat_frame _ _ t th th a Hss (same_regs_refl th) Hs1). constructor; simpl; auto.
+  - intros th'' Hsr. apply (GI_same g1); auto. subst g1. destruct HG.
+    assert (Hgh : gh th'' = gh_fed (gh th)) by (rewrite (sr_gh _ _ Hsr); reflexivity).
+    destruct (shape_trial i (apply_tmut TFed)).
+    constructor; rewrite ?sh_T0, ?sh_max0, ?sh_full0, ?sh_comp0, ?sh_pend0, ?sh_inf0, ?sh_reg0, ?sh_nst0, ?length_upd_nth; auto.
+    + rewrite gi_nst0. f_equal. symmetry. eapply cntb_same; eauto. rewrite Hgh. reflexivity.
+    + intros t0 th0 Hn Hr. destruct (nth_set_cases _ _ _ Hn) as [[? ?]|[? ?]]; subst.
+      * eapply same_regs_holds; eauto. unfold holds_k. simpl. eapply gi_reglock0; eauto. rewrite Hgh in Hr. auto.
+      * eapply gi_reglock0; eauto.
+    + rewrite map_id_upd by (intros; apply tmut_id). auto.
+    + intros j y Hj Hd. rewrite nth_error_upd_nth in Hj. destruct (Nat.eqb i j) eqn:E2.
+      * apply Nat.eqb_eq in E2. subst. rewrite C in Hj. inv Hj. simpl in Hd. congruence.
+      * eapply gi_pend0; eauto.
+    + intros t0 th0 j Hn Ho.
+      assert (Hold : exists y, nth_error (T g) j = Some y /\ t_done y = true /\ t_owner y = Some t0).
+      { destruct (nth_set_cases _ _ _ Hn) as [[? ?]|[? ?]]; subst; eapply gi_own0; eauto. rewrite Hgh in Ho. auto. }
+      destruct Hold as [y [A1 [B1 C1]]]. eexists. split. apply nth_upd_transfer; eauto. destruct (Nat.eqb i j); auto.
+    + intros j y Hj. rewrite nth_error_upd_nth in Hj.
+      pose proof (fbdebt_set th'' j) as Hfd. rewrite Hgh in Hfd. simpl in Hfd. rewrite (s_dfb _ _ _ _ Hs), Hfb, B in Hfd. simpl in Hfd.
+      destruct (Nat.eqb i j) eqn:E2.
+      * apply Nat.eqb_eq in E2. subst. rewrite C in Hj. inv Hj. simpl. rewrite D, F. simpl.
+        pose proof (gi_fed0 _ _ C) as Hold. rewrite D, F in Hold. simpl in Hold. unfold b2z in Hfd. lia.
+      * unfold b2z in Hfd. pose proof (gi_fed0 _ _ Hj). lia.
+    + erewrite countp_upd_same; eauto. erewrite sumz_same; eauto. rewrite Hgh. reflexivity.
+    + erewrite countp_upd_same; eauto. erewrite !sumz_same; eauto; rewrite Hgh; reflexivity.
+    + erewrite countp_upd_same; eauto. erewrite sumz_same; eauto. rewrite Hgh. reflexivity.
+  - red; intros. eapply sat_frame; [exact Hss | apply same_regs_refl |]. apply sat_trial_pres; auto; apply tfed_pres.
+Qed.
+
+
+Lemma no_debt_parts : no_debt a = true ->
+  d_reg a = false /\ d_ip a = false /\ d_lat a = false /\ d_cc a = false /\ d_dp a = false /\ d_inf a = false /\ d_fb a = false /\ d_best a = false.
+Proof. unfold no_debt. intros. bool_hyps. repeat split; assumption. Qed.
+
+Lemma fbdebt_same2 : forall th'' i, g_fb (gh th'') = g_fb (gh th) -> g_own (gh th'') = g_own (gh th) -> fbdebt (set_th ts t th'') i = fbdebt ts i.
+Proof. intros. unfold fbdebt. eapply cntb_same; eauto. simpl. rewrite H, H0. auto. Qed.
+
+Lemma stmt_ENewStudy : req_eff ENewStudy a = true ->
+  forall g' th', sem c t ENewStudy g th = (g', th') -> stmt_goal g ts t g' th' (post_eff ENewStudy a).
+Proof.
+  stmt_start Hre g' th' Hsem Hst0. bool_hyps.
+  assert (HR : holds LReg (a_locks a) = true) by assumption. assert (Hmiss : f_regmiss a = true) by assumption.
+  match goal with H : no_debt a = true |- _ => destruct (no_debt_parts H) as [Hdr _] end.
+  injection Hsem as Eg Eth; subst g' th'. simpl.
+  destruct (s_regmiss _ _ _ _ Hs Hmiss) as [_ Hnone].
+  assert (Hcnt : cntb (fun th0 => g_reg (gh th0)) ts = 0).
+  { apply cntb_all_false. intros t0 th0 Hn. destruct (g_reg (gh th0)) eqn:E; auto. exfalso.
+    assert (t0 = t). { eapply LockInv_mutex with (k := KReg); eauto. eapply gi_reglock; eauto. eapply sat_holds_reg; eauto. }
+    subst. rewrite Ht in Hn. inv Hn. rewrite (s_dreg _ _ _ _ Hs) in E. congruence. }
+  assert (Hn0 : nstudies g = 0). { rewrite (gi_nst _ _ HG), Hnone, Hcnt. reflexivity. }
+  split; [|split].
+  - destruct Hs. constructor; simpl; auto.
+  - intros th'' Hsr. destruct HG.
+    assert (Hgh : gh th'' = gh_reg true (gh th)) by (rewrite (sr_gh _ _ Hsr); reflexivity).
+    constructor; simpl; auto.
+    + rewrite Hnone. pose proof (cntb_set_th_nat (fun th0 => g_reg (gh th0)) ts t th th'' Ht) as Hc.
+      cbv beta in Hc. rewrite Hgh in Hc. simpl in Hc. rewrite (s_dreg _ _ _ _ Hs), Hdr in Hc. lia.
+    + intros t0 th0 Hn Hr. destruct (nth_set_cases _ _ _ Hn) as [[? ?]|[? ?]]; subst.
+      * eapply same_regs_holds; eauto. unfold holds_k. simpl. eapply sat_holds_reg; eauto.
+      * eapply gi_reglock0; eauto.
+    + intros t0 th0 j Hn Ho. destruct (nth_set_cases _ _ _ Hn) as [[? ?]|[? ?]]; subst; eapply gi_own0; eauto. rewrite Hgh in Ho. auto.
+    + intros. rewrite fbdebt_same2 by (rewrite Hgh; reflexivity). auto.
+    + erewrite sumz_same; eauto. rewrite Hgh. reflexivity.
+    + erewrite !sumz_same; eauto; rewrite Hgh; reflexivity.
+    + erewrite sumz_same; eauto. rewrite Hgh. reflexivity.
+  - apply others_same_study. constructor; reflexivity.
+Qed.
+
+Lemma stmt_ERegister : req_eff ERegister a = true ->
+  forall g' th', sem c t ERegister g th = (g', th') -> stmt_goal g ts t g' th' (post_eff ERegister a).
+Proof.
+  stmt_start Hre g' th' Hsem Hst0. bool_hyps.
+  assert (HR : holds LReg (a_locks a) = true) by assumption. assert (Hmiss : f_regmiss a = true) by assumption.
+  assert (Hdr : d_reg a = true) by assumption.
+  injection Hsem as Eg Eth; subst g' th'. simpl.
+  destruct (s_regmiss _ _ _ _ Hs Hmiss) as [_ Hnone].
+  split; [|split].
+  - destruct Hs. constructor; simpl; auto; try discriminate.
+  - intros th'' Hsr. destruct HG.
+    assert (Hgh : gh th'' = gh_reg false (gh th)) by (rewrite (sr_gh _ _ Hsr); reflexivity).
+    constructor; simpl; auto.
+    + rewrite gi_nst0, Hnone. pose proof (cntb_set_th_nat (fun th0 => g_reg (gh th0)) ts t th th'' Ht) as Hc.
+      cbv beta in Hc. rewrite Hgh in Hc. simpl in Hc. rewrite (s_dreg _ _ _ _ Hs), Hdr in Hc. lia.
+    + intros t0 th0 Hn Hr. destruct (nth_set_cases _ _ _ Hn) as [[? ?]|[? ?]]; subst.
+      * rewrite Hgh in Hr. simpl in Hr. discriminate.
+      * eapply gi_reglock0; eauto.
+    + intros t0 th0 j Hn Ho. destruct (nth_set_cases _ _ _ Hn) as [[? ?]|[? ?]]; subst; eapply gi_own0; eauto. rewrite Hgh in Ho. auto.
+    + intros. rewrite fbdebt_same2 by (rewrite Hgh; reflexivity). auto.
+    + erewrite sumz_same; eauto. rewrite Hgh. reflexivity.
+    + erewrite !sumz_same; eauto; rewrite Hgh; reflexivity.
+    + erewrite sumz_same; eauto. rewrite Hgh. reflexivity.
+  - red. intros t' th2 a2 Hne Hn Hs2. pose proof Hs2 as Hs2'. destruct Hs2. constructor; auto.
+    intros Hf. exfalso. destruct (s_regmiss0 Hf). eapply other_reg_contra; eauto.
+Qed.
+
+
+Lemma nth_error_app_some : forall A (l l' : list A) i y, nth_error l i = Some y -> nth_error (l ++ l') i = Some y.
+Proof. intros. rewrite nth_error_app1; auto. apply nth_error_Some. congruence. Qed.
+
+Lemma T_append : forall x, T (upd_study 0 (fun st => set_trials st (s_trials st ++ [x])) g) = T g ++ [x].
+Proof. reflexivity. Qed.
+
+(* facts of any thread that do not depend on the number of trials survive an append *)
+Lemma sat_append_keep : forall t' th2 a2 x, sat g t' th2 a2 -> f_idfresh a2 = false -> f_room a2 = false ->
+  sat (upd_study 0 (fun st => set_trials st (s_trials st ++ [x])) g) t' th2 a2.
+Proof.
+  intros t' th2 a2 x Hs2 Hi Hr. destruct Hs2. constructor; auto; try (intros; congruence).
+  - intros Hf. destruct (s_curpend0 Hf) as [Hh [j [y [A [B C]]]]]. split; auto.
+    exists j, y. rewrite T_append. split; auto. split; auto. apply nth_error_app_some; auto.
+  - intros Hf. destruct (s_own0 Hf) as [j [y [A [B [C [D E]]]]]]. exists j, y. rewrite T_append. repeat split; auto. apply nth_error_app_some; auto.
+  - intros v Hf. destruct (s_kinf0 v Hf) as [j [y [A [B [C [D [E F]]]]]]]. exists j, y. rewrite T_append. repeat split; auto. apply nth_error_app_some; auto.
+  - intros Hf. destruct (s_final0 Hf) as [j [y [A [B [C [D [E F]]]]]]]. exists j, y. rewrite T_append. repeat split; auto. apply nth_error_app_some; auto.
+  - intros Hf. destruct (s_hasmeas0 Hf) as [j [y [A [B C]]]]. exists j, y. rewrite T_append. repeat split; auto. apply nth_error_app_some; auto.
+Qed.
+
+Lemma stmt_EAppend : req_eff EAppend a = true ->
+  forall g' th', sem c t EAppend g th = (g', th') -> stmt_goal g ts t g' th' (post_eff EAppend a).
+Proof.
+  stmt_start Hre g' th' Hsem Hst0. bool_hyps.
+  assert (HLk : holds LStudy (a_locks a) = true) by assumption.
+  assert (Hidf : f_idfresh a = true) by assumption. assert (Hroom : f_room a = true) by assumption.
+  assert (Hdip : d_ip a = false) by assumption. assert (Hdlat : d_lat a = false) by assumption.
+  injection Hsem as Eg Eth; subst g' th'. simpl. fold (T g).
+  set (x := {| t_id := r_id th; t_group := r_group th; t_dna := r_dna th; t_done := false; t_inf := false; t_meas := []; t_final := None; t_fed := 0; t_owner := None |}).
+  destruct (s_idfresh _ _ _ _ Hs Hidf) as [_ Hid]. destruct (s_room _ _ _ _ Hs Hroom) as [_ Hrm].
+  split; [|split].
+  - (* self *)
+    assert (Hk : sat (upd_study 0 (fun st => set_trials st (s_trials st ++ [x])) g) t th
+                   (set_study_facts false false false (f_latdone a) (f_curpend a) (f_bestfresh a) (f_better a) a)).
+    { assert (Hw : sat g t th (set_study_facts false false false (f_latdone a) (f_curpend a) (f_bestfresh a) (f_better a) a)).
+      { destruct Hs. constructor; simpl; auto; try discriminate. }
+      apply sat_append_keep; auto. }
+    destruct Hk. simpl in *. constructor; simpl; auto.
+    + rewrite s_dip0, Hdip. reflexivity.
+    + eexists. split; reflexivity.
+  - (* the study invariant *)
+    intros th'' Hsr. destruct HG.
+    assert (Hgh : gh th'' = gh_append (length (T g)) (gh th)) by (rewrite (sr_gh _ _ Hsr); reflexivity).
+    assert (HT' : T (upd_study 0 (fun st => set_trials st (s_trials st ++ [x])) g) = T g ++ [x]) by reflexivity.
+    constructor; rewrite ?HT'; unfold St; simpl; fold (St g); auto.
+    + rewrite gi_nst0. f_equal. symmetry. eapply cntb_same; eauto. rewrite Hgh. reflexivity.
+    + intros t0 th0 Hn Hr. destruct (nth_set_cases _ _ _ Hn) as [[? ?]|[? ?]]; subst.
+      * eapply same_regs_holds; eauto. unfold holds_k. simpl. eapply gi_reglock0; eauto. rewrite Hgh in Hr. auto.
+      * eapply gi_reglock0; eauto.
+    + rewrite map_app, app_length. simpl. rewrite gi_ids0. rewrite Nat.add_1_r. rewrite seq_snoc. f_equal. rewrite Hid. reflexivity.
+    + destruct gi_max0 as [M1 M2]. split; auto. intros m Hm. rewrite app_length. simpl. rewrite Hm in Hrm. lia.
+    + intros Hf. exfalso. destruct (gi_full0 Hf) as [m [M1 M2]]. rewrite M1 in Hrm. lia.
+    + intros j y Hj Hd. destruct (lt_dec j (length (T g))).
+      * rewrite nth_error_app1 in Hj; auto. eapply gi_pend0; eauto.
+      * rewrite nth_error_app2 in Hj by lia. destruct (j - length (T g)) as [|k]; simpl in Hj. inv Hj. auto. destruct k; discriminate.
+    + intros t0 th0 j Hn Ho.
+      assert (Hold : exists y, nth_error (T g) j = Some y /\ t_done y = true /\ t_owner y = Some t0).
+      { destruct (nth_set_cases _ _ _ Hn) as [[? ?]|[? ?]]; subst; eapply gi_own0; eauto. rewrite Hgh in Ho. auto. }
+      destruct Hold as [y [A1 [B1 C1]]]. exists y. split; auto. apply nth_error_app_some; auto.
+    + intros j y Hj. rewrite fbdebt_same2 by (rewrite Hgh; reflexivity).
+      destruct (lt_dec j (length (T g))).
+      * rewrite nth_error_app1 in Hj; auto.
+      * rewrite nth_error_app2 in Hj by lia. destruct (j - length (T g)) as [|k] eqn:Ej; simpl in Hj; [|destruct k; discriminate]. inv Hj. simpl.
+        assert (Hz : fbdebt ts j = 0).
+        { unfold fbdebt. apply cntb_all_false. intros t0 th0 Hn0. destruct (g_fb (gh th0)); auto. simpl.
+          destruct (g_own (gh th0)) as [o|] eqn:Eo; auto. simpl. destruct (Nat.eqb o j) eqn:Eoj; auto. apply Nat.eqb_eq in Eoj. subst.
+          destruct (gi_own0 _ _ _ Hn0 Eo) as [y [A1 _]]. apply nth_error_Some in A1 || (assert (j < length (T g)) by (apply nth_error_Some; congruence); lia). }
+        lia.
+    + rewrite countp_app. erewrite sumz_same; eauto. rewrite <- gi_comp0. unfold countp. simpl. ring. rewrite Hgh. reflexivity.
+    + rewrite countp_app. erewrite sumz_set_th; eauto. erewrite (sumz_same (fun th0 => g_dp (gh th0))); eauto. rewrite Hgh. simpl. rewrite <- gi_pendc0. unfold countp. simpl. ring.
+      rewrite Hgh. reflexivity.
+    + rewrite countp_app. erewrite sumz_same; eauto. rewrite <- gi_infc0. unfold countp. simpl. ring. rewrite Hgh. reflexivity.
+  - (* the others *)
+    red. intros t' th2 a2 Hne Hn Hs2. apply sat_append_keep; auto.
+    + destruct (f_idfresh a2) eqn:E; auto. exfalso. destruct (s_idfresh _ _ _ _ Hs2 E). eapply other_study_contra; eauto.
+    + destruct (f_room a2) eqn:E; auto. exfalso. destruct (s_room _ _ _ _ Hs2 E). eapply other_study_contra; eauto.
+Qed.
+
 End OneStmt.
+
+
+Lemma stmt_sound : forall e rd wr a g ts t th,
+  LockInv g ts -> GI g ts -> (forall t' th2, nth_error ts t' = Some th2 -> thread_ok g t' th2) ->
+  nth_error ts t = Some th -> sat g t th a -> req (Stmt rd wr e) a = true ->
+  forall g' th', sem c t e g th = (g', th') -> stmt_goal g ts t g' th' (post_eff e a).
+Proof.
+  intros e rd wr a g ts t th HL HG HT Ht Hs Hreq g' th' Hsem.
+  pose proof (s_study _ _ _ _ Hs) as Hst0.
+  destruct (req_stmt _ _ _ _ Hreq) as [Hok [Hwg [Hre Hfp]]].
+  destruct e;
+  try (unfold sem, muts, regs, study_of in Hsem; rewrite Hst0 in Hsem; simpl in Hsem;
+       repeat destr_match; injection Hsem as Eg Eth; subst g' th'; simpl post_eff; eapply stmt_boring; eauto; constructor; reflexivity).
+  - eapply stmt_ENewStudy; eauto.
+  - eapply stmt_ERegister; eauto.
+  - eapply stmt_ELookup; eauto.
+  - eapply stmt_EGetLatest; eauto.
+  - eapply stmt_EReadId; eauto.
+  - eapply stmt_EAppend; eauto.
+  - eapply stmt_EIncPend; eauto.
+  - eapply stmt_ESetLatest; eauto.
+  - eapply stmt_ESetCur; eauto.
+  - eapply stmt_EAddMeas; eauto.
+  - eapply stmt_ESetCompleted; eauto.
+  - eapply stmt_ESetFinalLast; eauto.
+  - eapply stmt_ESetFinalZero; eauto.
+  - eapply stmt_ESetInf; eauto.
+  - eapply stmt_EComputeReward; eauto.
+  - eapply stmt_EIncComp; eauto.
+  - eapply stmt_EDecPend; eauto.
+  - eapply stmt_EIncInf; eauto.
+  - eapply stmt_EReadBest; eauto.
+  - eapply stmt_ESetBest; eauto.
+  - eapply stmt_EIncNF; eauto.
+Qed.
 
 End Sound.
